@@ -634,6 +634,17 @@ def slice_query(c):
 @model(r"^core::slice::<impl \[.*\]>::(iter|iter_mut)$|^<&(mut )?std::vec::Vec<.*> as std::iter::IntoIterator>::into_iter$|^<&(mut )?\[.*\] as std::iter::IntoIterator>::into_iter$")
 def slice_iter(c):
     src = c.deref(c.args[0])
+    if c.it.track_content and ("iter_mut" in c.name or "<&mut " in c.name) and isinstance(src, Seq):
+        # the elements may be written through the iterator: whatever was known about the bytes is forgotten now
+        a0 = c.args[0]
+        if isinstance(a0, Ref):
+            cur = c.it.load(c.st, a0.cell, a0.path)
+            if isinstance(cur, Seq) and (cur.items is not None or cur.src is not None) and cur.view is None:
+                c.it.store(c.st, a0.cell, a0.path, Seq(cur.len, cur.elem, None, None, None))
+        if src.view is not None and str(src.view[0]).startswith("@"):
+            from absint.models_content import patch_container
+            patch_container(c.it, c.st, src.view, Lin.const(0), src.len, ("be", 0, None))
+        src = Seq(src.len, src.elem, None, src.view, None)
     if isinstance(src, Seq) and c.it.track_content and (isinstance(src.items, Empty) or c.st.sys.entails_eq(src.len)):
         return [(c.st, Iter(Lin.const(0), False, "iter", None, Struct({}, tag="elems")))]
     if isinstance(src, Seq) and c.it.byte_defs and "iter_mut" not in c.name and src_atom(src.content()) and not str(src.content()[0]).startswith("@"):
@@ -782,6 +793,23 @@ def byteorder_rw(c):
                 # (one cell per read site: the latest read there; joins across loop iterations keep what they agree on)
                 c.st.cells["ghost:rd:%s:%d:%s:%d" % (c.fr.body.key, c.bb, w[0], n)] = Struct({0: Num(e), 1: Num(w[1])})
             return [(c.st, Num(e))]
+        if w is not None and c.it.track_content:
+            # a composed content (patched / concatenated): the window read may be exactly the big-endian bytes of a number
+            from absint.models_content import segments, cut
+            segs = segments(c.st, w, d.len)
+            if segs is not None:
+                part = cut(c.st, segs, Lin.const(0), Lin.const(n))
+                if len(part) == 1 and part[0][0] == "be" and part[0][1] == n and part[0][2] is not None:
+                    if "BigEndian" in c.name:
+                        return [(c.st, Num(part[0][2]))]
+                    # the bytes of a big-endian number read the other way round: a named function of that number
+                    from absint.interp import hash_str
+                    nm_ = "bswap%d_%x" % (n * 8, hash_str("%r" % (c.st.sys.reduce(part[0][2]),)) & 0xffffffffffff)
+                    e_ = Lin.var(nm_)
+                    lo_, hi_ = int_range(c.ret_ty())
+                    c.st.sys.add_range(e_, lo_, hi_)
+                    c.it.purefun[nm_] = set(part[0][2].t)
+                    return [(c.st, Num(e_))]
         return [(c.st, c.top_ret())]
     dst = c.deref(c.args[0])
     if isinstance(dst, Seq) and dst.view is not None and str(dst.view[0]).startswith("@"):
@@ -1147,13 +1175,17 @@ def try_into(c):
 @model(r"^std::str::from_utf8$|^core::str::from_utf8$|^std::str::from_utf8_mut$")
 def from_utf8(c):
     ln = c.seq_len(c.args[0])
-    return [(c.st, Enum(RESULT, {0: Struct({0: Seq(ln)}), 1: Struct({0: TOP})}))]
+    src = c.deref(c.args[0])
+    cp = src.content() if isinstance(src, Seq) and c.it.track_content else None       # the str is the same bytes
+    return [(c.st, Enum(RESULT, {0: Struct({0: Seq(ln, None, None, None, cp)}), 1: Struct({0: TOP})}))]
 
 
 @model(r"^std::string::String::from_utf8$")
 def string_from_utf8(c):
     ln = c.seq_len(c.args[0])
-    return [(c.st, Enum(RESULT, {0: Struct({0: Seq(ln)}), 1: Struct({0: TOP})}))]
+    src = c.deref(c.args[0])
+    cp = src.content() if isinstance(src, Seq) and c.it.track_content else None
+    return [(c.st, Enum(RESULT, {0: Struct({0: Seq(ln, None, None, None, cp)}), 1: Struct({0: TOP})}))]
 
 
 @model(r"^std::string::String::from_utf8_lossy$|^<str as std::string::ToString>::to_string|^<.* as std::string::ToString>::to_string$")
